@@ -25,7 +25,8 @@ type gfile struct {
 	class     stack.Location
 	pkg       string // package path of the frame's symbol (unescaped)
 	name      string
-	ambiguous bool // resolvable under two roots: outside the oracle's statement
+	ambiguous bool   // resolvable under two roots: outside the oracle's statement
+	expect    string // when set: the expectation entry to use verbatim
 }
 
 type layout struct {
@@ -276,6 +277,49 @@ func opGuess(r *rand.Rand, n int, tier string, seed int64) {
 			frames = append(frames, gfile{remote: "/remote/dupA/src/dup/pkg/" + fa, class: stack.GOPATH, pkg: "pkg", name: "D", ambiguous: true})
 			frames = append(frames, gfile{remote: "/remote/dupB/src/only2/" + fz, local: g2 + "/src/only2/" + fz, rel: "only2/" + fz, imp: "only2", class: stack.GOPATH, pkg: "only2", name: "O"})
 		}
+		// a file sitting directly in a detected remote GOPATH root (neither src/ nor pkg/mod/ follows the root)
+		if ngp > 0 && r.Intn(4) == 0 {
+			rgs := map[string]bool{}
+			for _, f := range frames {
+				if f.class == stack.GOPATH && f.local != "" && strings.HasPrefix(f.remote, "/remote/gopath") {
+					rgs[f.remote[:strings.Index(f.remote, "/src/")]] = true
+				}
+			}
+			for rg := range rgs {
+				frames = append(frames, gfile{remote: rg + []string{"/zz.go", "/util.go", "/z.go", "/srcs/a.go", "/pkg/mo.go"}[r.Intn(5)], class: stack.LocationUnknown, pkg: "odd", name: "R", ambiguous: true})
+				break
+			}
+		}
+		// one remote GOPATH whose packages are split over two local GOPATH entries: the file examined first binds the root
+		if r.Intn(6) == 0 {
+			g1, g2 := base+"/gps1", base+"/gps2"
+			l.localGopaths = append(l.localGopaths, g1, g2)
+			fa, fb := fname(), fname()
+			l.add(g1+"/src/p/"+fa, "package x\n")
+			l.add(g2+"/src/q/"+fb, "package x\n")
+			frames = append(frames, gfile{remote: "/remote/split/src/p/" + fa, local: g1 + "/src/p/" + fa, rel: "p/" + fa, imp: "p", class: stack.GOPATH, pkg: "p", name: "P"})
+			frames = append(frames, gfile{remote: "/remote/split/src/q/" + fb, class: stack.GOPATH, pkg: "q", name: "Q", ambiguous: true})
+		}
+		// a GOPATH package whose path tail also exists in the local GOROOT (errors/errors.go): still a GOPATH file
+		if hasGoroot && r.Intn(5) == 0 {
+			lg := base + "/gplook"
+			l.localGopaths = append(l.localGopaths, lg)
+			l.add(l.localGoroot+"/src/errors/errors.go", "package errors\n")
+			rel := "example.com/foo/errors/errors.go"
+			l.add(lg+"/src/"+rel, "package errors\n")
+			frames = append(frames, gfile{remote: "/remote/gopath-look/src/" + rel, local: lg + "/src/" + rel, rel: rel, imp: "example.com/foo/errors", class: stack.GOPATH, pkg: "example.com/foo/errors", name: "New"})
+		}
+		// the generated main of "go test" (Stdlib by decree) lying under a detected GOPATH root
+		if ngp > 0 && r.Intn(5) == 0 {
+			for _, f := range frames {
+				if f.class == stack.GOPATH && f.local != "" && strings.HasPrefix(f.remote, "/remote/gopath") && !strings.Contains(f.remote, "gopath-look") {
+					rg := f.remote[:strings.Index(f.remote, "/src/")]
+					frames = append(frames, gfile{remote: rg + "/src/pkgt/_test/_testmain.go", class: stack.Stdlib, pkg: "main", name: "main",
+						expect: fmt.Sprintf("%d|*|*|*", int(stack.Stdlib))})
+					break
+				}
+			}
+		}
 		// local modules (paths are the same remotely and locally)
 		for m := 0; m < r.Intn(3); m++ {
 			root := fmt.Sprintf("%s/proj%d", base, m)
@@ -351,7 +395,9 @@ func opGuess(r *rand.Rand, n int, tier string, seed int64) {
 			for k := g * per; k < (g+1)*per && k < len(frames); k++ {
 				f := frames[k]
 				gr.Frames = append(gr.Frames, dFrame{Sym: dSym{Pkg: f.pkg, Name: f.name}, File: f.remote, Line: 10 + k})
-				if f.ambiguous {
+				if f.expect != "" {
+					exp = append(exp, f.expect)
+				} else if f.ambiguous {
 					exp = append(exp, "?")
 				} else if f.local != "" || f.class == stack.LocationUnknown || f.remote == "/x/_test/_testmain.go" {
 					imp := f.imp
